@@ -1700,10 +1700,9 @@ class SequenceOfAndSetOfBase(base.ConstructedAsn1Type):
         if stop is None:
             stop = len(self)
 
-        indices, values = zip(*self._componentValues.items())
-
-        # TODO: remove when Py2.5 support is gone
-        values = list(values)
+        # by position, not in the order the components were stored
+        indices = sorted(self._componentValues)
+        values = [self._componentValues[idx] for idx in indices]
 
         try:
             return indices[values.index(value, start, stop)]
